@@ -5,7 +5,6 @@ Same case stream and oracle as C01 (full_output=True).  Clauses:
  (b) calibration of the estimate on the pooled well-posed cases (coverage, q99)    [finalize]
  (c) record consistency (exact): f_value == f(x), estimate >= 0 and finite, final_step within
      the generated steps, one entry per result entry, index addresses an existing estimate
- (d) metamorphic: scaling f by 2^k scales value and estimate exactly             [k_est >= 2]
 """
 import math
 
@@ -29,19 +28,6 @@ Q90_MAX = 2.0
 POOL_MIN = 300
 
 
-def _scaled_exactly(a, b, c):
-    """b == a*c componentwise, ignoring components outside [1e-140, 1e140]."""
-    a = np.asarray(a)
-    b = np.asarray(b)
-    if np.iscomplexobj(a) or np.iscomplexobj(b):
-        return (_scaled_exactly(np.real(a), np.real(b), c) and _scaled_exactly(np.imag(a), np.imag(b), c))
-    # exact scaling by 2^k holds as long as no intermediate product under- or overflows: only
-    # components whose squares are comfortably representable are compared
-    with np.errstate(all='ignore'):
-        big = (np.abs(a) > 1e-140) & (np.abs(a * c) > 1e-140) & (np.abs(a) < 1e140) & (np.abs(a * c) < 1e140)
-        return bool(np.all(b[big] == (a * c)[big]))
-
-
 @st.composite
 def c02_case(draw):
     case = draw(dc.derivative_case(full_output=True, n_min=1))
@@ -52,13 +38,14 @@ def c02_case(draw):
 class C02(Prop):
     id = 'C02'
     title = 'Reported error estimate is honest; full_output record is self-consistent'
-    rule = ('Case stream of C01 with full_output=True (expression tree, x, method, n in 1..nmax, order 1..8, '
+    rule = ('Three quarters of the cases: case stream of C01 with full_output=True (expression tree, x, method, n in 1..nmax, order 1..8, '
             'step configuration resolved against the certified analyticity radius). k_est = number of '
             'derivative estimates left after the finite-difference rule. Honesty (a) is asserted for '
             'k_est >= 2; a case is NON-TRIVIAL for (a) iff K*estimate + floor <= |exact|/2, i.e. a '
             'sign error or a factor 2 in the value would have been flagged as a dishonest estimate; '
-            'record consistency (c) is asserted on every case; the metamorphic scaling (d) on a drawn '
-            'quarter of the cases with k_est >= 2.  Distinct by (tree, x, method, n, order, step).')
+            'record consistency (c) is asserted on every case.  Distinct by (tree, x, method, n, order, step).  One quarter of the cases: Gradient / Jacobian / '
+            'Hessdiag / Hessian on generated multivariate programs (nverif/props/c02mv.py) with the same '
+            'honesty clause per entry and the same record-consistency clauses.')
     assumptions = (
         'oracle and certificate as in C01',
         'K_HONEST = 1e5 is deliberately large: clause (a) is "a near-zero estimate is never returned '
@@ -71,7 +58,8 @@ class C02(Prop):
     examples = {'quick': 300, 'thorough': 12000}
 
     def strategy(self, tier):
-        return c02_case()
+        from nverif.props import c02mv
+        return st.one_of(c02_case(), c02_case(), c02_case(), c02mv.mv_case())
 
     # ------------------------------------------------------------------------------
     def _record_consistency(self, case, ev, ctx):
@@ -115,6 +103,11 @@ class C02(Prop):
                             % (idx.tolist(), n_est_max))
 
     def check(self, case, ctx):
+        if case.get('family') == 'mv':
+            from nverif.props import c02mv
+            ctx.count('family=multivariate (%s)' % case.get('cls'))
+            return c02mv.check_mv(case, ctx)
+        ctx.count('family=Derivative')
         ev = dc.evaluate(case, ctx)
         method, n, order = case['method'], case['n'], case['order']
         cplx = case.get('wrap') is not None
@@ -167,51 +160,17 @@ class C02(Prop):
                 nontrivial = True
         if nontrivial:
             ctx.nontriv(key)
-        # (d) metamorphic scaling
-        mk = case.get('meta_k')
-        if mk is not None and ev.k_est >= 2:
-            self._metamorphic(case, ev, ctx, mk)
+        # clause (d) of the design (exact scaling f -> 2^k f) was removed: the property does not
+        # state it and the library's absolute 1e-8 outlier threshold legitimately breaks it
+        # (DESIGN.md section 10)
         ctx.sample(dict(dc.summary(case, ev), error_estimate=est[0], final_step=fstep[0]))
-
-    def _metamorphic(self, case, ev, ctx, mk):
-        import numdifftools as nd
-        import warnings
-        vals = ev.vals
-        if np.any(~np.isfinite(vals)) or np.any(np.abs(vals) > 1e290):
-            return
-        c = 2.0 ** mk
-        # the outlier test compares |median| with the absolute threshold 1e-8: stay away from it
-        lo, hi = 1e-8 / 1e4, 1e-8 * 1e4
-        # (the median of the estimates is not observable: the final value and the reported spread
-        # are used as proxies for its magnitude)
-        mags = np.concatenate([np.abs(vals), np.abs(np.asarray(ev.info.error_estimate).ravel())])
-        for m in (mags, mags * c):
-            if np.any((m > lo) & (m < hi)):
-                ctx.count('metamorphic skipped: near the 1e-8 outlier threshold')
-                return
-        f = ev.f
-
-        def g(x, *a, **k):
-            return c * f(x)
-        with warnings.catch_warnings():
-            warnings.simplefilter('ignore')
-            with ctx.lib('no-exception', 'Derivative of the scaled function'):
-                d2 = dc.build(nd, nd.Derivative, g, case, ev.scale)
-                with np.errstate(all='ignore'):
-                    v2, info2 = d2(ev.x_arr)
-        e1 = np.asarray(ev.info.error_estimate).ravel()
-        e2 = np.asarray(info2.error_estimate).ravel()
-        v2 = np.asarray(v2).ravel()
-        ctx.count('metamorphic checked')
-        # sub-normal underflow in intermediate differences can break exactness: require normal range
-        if not (_scaled_exactly(vals, v2, c) and _scaled_exactly(e1, e2, c)):
-            raise Violation('metamorphic-scale', 'scaling f by 2**%d: value %r -> %r, estimate %r -> %r '
-                            '(expected exact scaling)' % (mk, vals.tolist(), v2.tolist(), e1.tolist(),
-                                                          e2.tolist()), method=case['method'])
 
     def finding_key(self, case, v):
         if case is None:
             return {'clause': v.clause, 'method': v.details.get('method')}
+        if case.get('family') == 'mv':
+            from nverif.props import c02mv
+            return c02mv.mv_finding_key(case, v)
         big = max(exprs.max_abs_argument(case['tree'], float(xv), ('tanh',)) for xv in case['x'])
         tiny = min(exprs.min_abs_pow_base(case['tree'], float(xv)) for xv in case['x'])
         return {'clause': v.clause, 'method': case['method'], 'n': case['n'],
